@@ -511,6 +511,7 @@ class _Run:
 
 
 class StreamSim(Simulator):
+    isolate_runs = True
     crash_rule = "C10.S1"
     name = "streamsim"
     property_id = "C10"
